@@ -26,7 +26,9 @@ impl CharRulePart {
             }
             CharRulePart::Identifier(ident) => {
                 let parser_name = format_ident!("parse_{}", ident);
-                Ok(quote!(#parser_name(state.clone(), global)))
+                // Reborrow explicitly: the built-in `parse_char` is generic over this parameter,
+                // so passing `global` itself would move it and break any later alternative.
+                Ok(quote!(#parser_name(state.clone(), &mut *global)))
             }
         }
     }
